@@ -70,6 +70,10 @@ def same(a, b):
     return type(a) is type(b) and a == b
 
 
+def save_paths(c, path):
+    return ([path + ".first"] if int(c.get("saves", 1)) == 2 else []) + [path]
+
+
 def ll_fn(s):
     import smcdrv
     return s.xp.asarray(-0.5 * ((smcdrv.to_np(s.x) - 0.2) ** 2).sum(-1), dtype=s.dtype)
@@ -136,8 +140,9 @@ def run_case(arg):
             tag = f"samples|{c['cls']}|{c['via']}|{c['layout']}|{c['ns']}|rows={n}"
             try:
                 if c["via"] == "save":
-                    with h5py.File(path, "w") as f:
-                        obj.save(f, path="s", flat=(c["layout"] == "flat"))
+                    for _p in save_paths(c, path):       # saves = 2: the same object is saved twice; the second file is read back
+                        with h5py.File(_p, "w") as f:
+                            obj.save(f, path="s", flat=(c["layout"] == "flat"))
                     with h5py.File(path, "r") as f:
                         back = C.load(f, path="s")
                 else:
@@ -162,8 +167,9 @@ def run_case(arg):
                         return out
                     m = c["npops"]         # number of epochs
                     h = FlowHistory(training_loss=[1.5 - t / 8.0 for t in range(m)], validation_loss=[2.0 - t / 16.0 for t in range(m)])
-                    with h5py.File(path, "w") as f:
-                        h.save(f)
+                    for _p in save_paths(c, path):       # saves = 2: the same object is saved twice; the second file is read back
+                        with h5py.File(_p, "w") as f:
+                            h.save(f)
                     with h5py.File(path, "r") as f:
                         b = FlowHistory.load(f)
                     if not all(isinstance(v, (list, tuple, np.ndarray)) and np.ndim(v) == 1 for v in (b.training_loss, b.validation_loss)):
@@ -192,8 +198,9 @@ def run_case(arg):
                         h.log_norm_ratio = [-1.5 + 0.25 * t for t in range(m)]
                         h.log_norm_ratio_var = [0.125 * (t + 1) for t in range(m)]
                         h.mcmc_acceptance = [0.5 / (t + 1) for t in range(max(0, m - 1))]
-                    with h5py.File(path, "w") as f:
-                        h.save(f)
+                    for _p in save_paths(c, path):       # saves = 2: the same object is saved twice; the second file is read back
+                        with h5py.File(_p, "w") as f:
+                            h.save(f)
                     with h5py.File(path, "r") as f:
                         b = SMCHistory.load(f)
                     for s in ("beta", "ess", "ess_target", "eff_target", "log_norm_ratio", "log_norm_ratio_var", "mcmc_acceptance"):
@@ -242,8 +249,9 @@ def run_case(arg):
                     tr.fit(xp.asarray(data.copy()))
                 elif needs_fit:
                     return out        # an unfitted whitening transform has no state to save
-                with h5py.File(path, "w") as f:
-                    tr.save(f, "t")
+                for _p in save_paths(c, path):       # saves = 2: the same object is saved twice; the second file is read back
+                    with h5py.File(_p, "w") as f:
+                        tr.save(f, "t")
                 with h5py.File(path, "r") as f:
                     back = T.BaseTransform.load(f, "t")
                 if type(back) is not type(tr):
@@ -303,37 +311,47 @@ def compare_samples(a, b):
     return probs
 
 
-def make_flow(backend, dtype, kwargs, dims=2):
+def make_flow(backend, dtype, kwargs, dims=2, transform=False):
     import smcdrv
+    tkw = {}
+    if transform:
+        from aspire.transforms import FlowTransform
+        xp_ = (__import__("array_api_compat.torch", fromlist=["x"]) if backend == "zuko" else smcdrv.get_xp("jax"))
+        tkw["data_transform"] = FlowTransform(parameters=["a", "b"], prior_bounds={"a": [-6.0, 7.0], "b": [-5.0, 6.0]},
+                                              bounded_to_unbounded=True, bounded_transform="logit", affine_transform=True,
+                                              xp=xp_, dtype=dtype)
     if backend == "zuko":
         import torch
         torch.set_num_threads(1)
         from aspire.flows.torch.flows import ZukoFlow
         kw = {"hidden_features": [8, 8]} if kwargs else {}
-        return ZukoFlow(dims, seed=4, dtype=dtype, **kw)
+        return ZukoFlow(dims, seed=4, dtype=dtype, **kw, **tkw)
     import jax
     smcdrv.get_xp("jax")
     from aspire.flows.jax.flows import FlowJax
     kw = {"nn_width": 8, "nn_depth": 1} if kwargs else {}
-    return FlowJax(dims, key=jax.random.key(4), dtype=dtype, **kw)
+    return FlowJax(dims, key=jax.random.key(4), dtype=dtype, **kw, **tkw)
 
 
 def flow_case(c, path):
     import h5py
     import smcdrv
     viol = []
-    tag = f"flow|{c['backend']}|{'trained' if c['trained'] else 'untrained'}|{c['dtype']}|{'kwargs' if c['kwargs'] else 'defaults'}"
+    tag = f"flow|{c['backend']}|{'trained' if c['trained'] else 'untrained'}|{c['dtype']}|{'kwargs' if c['kwargs'] else 'defaults'}|{'transform' if c.get('transform') else 'plain'}|saves={c.get('saves', 1)}"
     try:
-        fl = make_flow(c["backend"], c["dtype"], c["kwargs"])
+        fl = make_flow(c["backend"], c["dtype"], c["kwargs"], transform=bool(c.get("transform")))
         rng = np.random.default_rng(2)
         data = rng.normal(0.4, 1.1, size=(64, 2))
+        if c.get("transform") and not c["trained"]:
+            fl.fit_data_transform(fl.xp.asarray(np.asarray(data, dtype=c["dtype"])) if hasattr(fl, "xp") else data)
         if c["trained"]:
             if c["backend"] == "zuko":
                 fl.fit(data, n_epochs=2, batch_size=32)
             else:
                 fl.fit(data, max_epochs=2, batch_size=32, show_progress=False)
-        with h5py.File(path, "w") as f:
-            fl.save(f, "flow")
+        for _p in save_paths(c, path):       # saves = 2: the same object is saved twice; the second file is read back
+            with h5py.File(_p, "w") as f:
+                fl.save(f, "flow")
         with h5py.File(path, "r") as f:
             back = type(fl).load(f, "flow")
         probe = data[:10]
@@ -419,7 +437,13 @@ def main(prop, tier, seed, replay_path=None):
             light = [i for i in idx if cases[i]["kind"] in ("config", "samples", "history", "transform")]
             heavy = [i for i in idx if cases[i]["kind"] in ("flow", "resume")]
             rnd.shuffle(light); rnd.shuffle(heavy)
-            heavy_keep = [i for i in heavy if cases[i]["kind"] == "flow"][:8] + \
+            # flows: one case for every (back-end, data transform, number of saves), then random ones
+            fl_seen, fl_strat = set(), []
+            for i in heavy:
+                cc = cases[i]
+                if cc["kind"] == "flow" and (cc["backend"], cc["transform"], cc["saves"]) not in fl_seen:
+                    fl_seen.add((cc["backend"], cc["transform"], cc["saves"])); fl_strat.append(i)
+            heavy_keep = fl_strat + [i for i in heavy if cases[i]["kind"] == "flow" and i not in fl_strat][:4] + \
                          [i for i in heavy if cases[i]["kind"] == "resume" and cases[i]["backend"] == "verifflow"][:24] + \
                          [i for i in heavy if cases[i]["kind"] == "resume" and cases[i]["backend"] != "verifflow"][:8]
             idx = light[:1100] + heavy_keep
